@@ -554,13 +554,13 @@ func (h *harness) replayOne(family, base, text string) {
 	var line string
 	switch {
 	case strings.HasPrefix(family, "rdfa"):
-		res = decodeRdfa(text, base, false)
+		res = decodeRdfa(text, base, 0)
 		line = "html.rdfa " + vh.XS(base) + " " + doc.Wire()
 	case strings.HasPrefix(family, "md"):
-		res = decodeMd(text, base, false)
+		res = decodeMd(text, base, 0)
 		line = "html.md " + vh.XS(base) + " " + doc.Wire()
 	case family == "jsonld":
-		res = decodeJsonld(text, base, false)
+		res = decodeJsonld(text, base, 0)
 	default:
 		res = decodeAll(text, base, false)
 	}
